@@ -692,11 +692,15 @@ func (h *httpServerHandler) handleStreamResumption(ctx context.Context, conn *ge
 
 	// Implement resumption logic, re-sending messages based on lastEventID
 	// This needs to be handled according to the server's storage/cache mechanism
-	h.logger.Infof("Resuming session %s GET SSE stream, event ID: %s", sessionID, conn.lastEventID)
+	// lastEventID is updated by concurrent senders under writeLock.
+	conn.writeLock.Lock()
+	resumedFrom := conn.lastEventID
+	conn.writeLock.Unlock()
+	h.logger.Infof("Resuming session %s GET SSE stream, event ID: %s", sessionID, resumedFrom)
 
 	// Create params for the notification
 	params := map[string]interface{}{
-		"resumedFrom": conn.lastEventID,
+		"resumedFrom": resumedFrom,
 	}
 
 	// Create NotificationParams struct
